@@ -3,6 +3,7 @@ import Zc.Proofs.LinkBridge
 import Zc.Proofs.LinkBridgeK2
 import Zc.Proofs.LinkBridgeK1
 import Zc.Proofs.LinkBridgeK3
+import Zc.Proofs.LinkBridgeK3b
 import Zc.Proofs.LinkBridgeK5
 import Zc.Proofs.LinkBridgeK4
 import Zc.Proofs.LinkNaming
@@ -233,31 +234,88 @@ theorem C07_K3_from_C10 (tr : Trace) (endT : Int)
     K3 Cfg.paper tr endT = true :=
   Bridge.K3_of_browsers tr endT hb
 
-/-- **K3b from C10's model — the main case only** (partial).  For a pointer record that is new to the scheduler, learned at `t`
-after `start` with its 75 % point after the start-up phase, and neither refreshed nor withdrawn up to a block beyond the second
-deadline, `C10_refresh_chain2` gives the 75 % query in `[t + 750·ttl, … + 10 s]` and the 85 % query 10 % of the TTL after it (at
-most 10 s late); with C13's mapping for a stale record (`Bridge.WireAskWithout`) these are K3b's two refresh opportunities.  What does
-**not** follow from the merged C10 theorems, so K3b stays a monitored hypothesis of `C07_convergence_from_models_partial`
-(notes/agents/C07.md, "K3b"): (i) a *refreshed* record whose schedule is kept ("avoid churn") may be queried up to 10 s after its
-new 75 % point plus two late passes — 30 s after the 85 % point, K3b's window allows 25 s; (ii) a record whose 75 % point lies
-inside the browser's start-up phase (C10 names this case as not covered); (iii) for a kept schedule the type asked is the name
-stored when the alias was first scheduled — "one alias, one type" is not an invariant of the scheduler model; (iv) a browser
-started after the 75 % point (K3b's other branch) reduces to K3's third and fourth windows plus C13's staleness rule. -/
+/-- **K3b from C10's model — every branch of the contract, record by record** (partial: K3b stays a monitored hypothesis of
+`C07_convergence_from_models_partial` because the last step — that the scheduler history of every browser is the projection of the
+PTRs its host processes, block by block — is not assembled into the monitor yet; what is proved is each window).
+
+*Early branch* of `refreshWindow` (the browser had finished its start-up phase 10 s before the record's 75 % point).  For **any**
+pointer update of a started browser — a record new to the scheduler or a refresh, the schedule kept ("avoid churn") or replaced —
+`Bridge.refresh_two_sends_any` gives the 75 % query in `[t + 75 % − 10 s, t + 75 % + 20 s]` and the 85 % query 10 % of the TTL after
+it, at most 10 s late, hence in `[t + 85 % − 10 s, t + 85 % + 30 s]`: `reschedule_entry` (the one live entry of the instance is
+within `minDelay` of the new 75 % point, on either side) composed with `chain_core` / `chain_pre`.  With C13's mapping for a stale
+record (`Bridge.WireAskWithout`) these are K3b's two refresh opportunities (`Bridge.K3b_windows_of_sends`).  This closes the residual
+clauses (i) — **the contract was too tight: 85 % + 30 s, not + 25 s; `refreshWin` is 30 s now, in the Lean and the Python monitor, and
+`unexpired_of_refresh` closes with it** — and (iii): the type asked on a kept schedule is the type under which the instance was first
+scheduled, and `Bridge.nameOK_exec` shows it is the record's type whenever every pointer record of the instance in the history names
+one type (`Bridge.OneName`, a property of the history: instance names determine their type).  A record handed to the scheduler
+before `start` (warm cache) is `Bridge.refresh_two_sends_before_start`. -/
 theorem C07_K3b_from_C10_partial (tr : Trace) (b : Br) (s : Link.Svc) (types : List String) (tS : Int)
     (pre0 : List (Int × Sched.Op)) (tb : Int) (d : Nat) (pre : List (Int × Sched.Op)) (t : Int) (a n : String) (ttl : Nat)
     (evsA : List (Int × Sched.Op)) (tn : Int) (opn : Sched.Op) (rest : List (Int × Sched.Op)) (s' : Sched2.S2)
     (outs : List Sched.Send)
-    (hidle : C10.IdleOps pre0) (hnew0 : C10.Untouched a pre0) (hpre : C10.Active pre) (hnew : C10.Untouched a pre)
-    (hact : C10.Active evsA) (hun : C10.Untouched a evsA)
-    (hlate : tb + d + 14000 ≤ t + 750 * ttl) (httl : 1125 ≤ ttl) (htb : tb ≤ t + 750 * ttl)
-    (hbeyond : t + 850 * ttl + 20000 < tn)
+    (hidle : C10.IdleOps pre0) (hpre : C10.Active pre) (hact : C10.Active evsA) (hun : C10.Untouched a evsA)
+    (hname : Bridge.OneName a n (pre0 ++ pre)) (hd : d ≤ 120)
+    (httl : 1125 ≤ ttl) (htb : tb + 120 + 14000 + 10000 ≤ t + 750 * ttl)
+    (hbeyond : t + 850 * ttl + 30000 < tn)
     (hex : Sched2.exec2 (C10.browserCfg types 10000 none) {} tS
       (pre0 ++ (tb, .start d) :: (pre ++ (t, .ptr a n ttl t) :: (evsA ++ (tn, opn) :: rest))) = .ok (s', outs))
-    (hwire : ∀ o ∈ outs, n ∈ o.types → t + 750 * ttl ≤ o.t → Bridge.WireAskWithout tr b s o) :
+    (hwire : ∀ o ∈ outs, n ∈ o.types → t + 750 * ttl - 10000 ≤ o.t → Bridge.WireAskWithout tr b s o) :
+    refreshOpp tr b.host b.ty s (refreshWindow Cfg.paper t ttl tb false).1 (refreshWindow Cfg.paper t ttl tb false).2 = true
+    ∧ refreshOpp tr b.host b.ty s (refreshWindow Cfg.paper t ttl tb true).1 (refreshWindow Cfg.paper t ttl tb true).2 = true := by
+  apply Bridge.K3b_windows_of_sends tr b s n outs tb t ttl htb _ hwire
+  have := Bridge.refresh_two_sends_any types 10000 tS pre0 tb d pre t a n ttl t evsA tn opn rest s' outs hidle hpre hact hun hname
+    (by omega) (by omega) (by omega) (by omega) hex
+  simpa using this
+
+/-- **K3b, start-up branch** of `refreshWindow`: the browser started after the record's 75 % point (residual clause (iv)) or less
+than a start-up phase plus 10 s before it (residual clause (ii): the scheduler serves no refresh during the start-up phase — C10's
+chain theorems exclude this case, `hlate` — so the contract now asks what the code does there).  Its third and fourth start-up
+questions (K3: `C10_startup2`, no liveness axiom: the history goes beyond `tb + 14.12 s`) are on the wire without listing the record,
+which is past half its life by then (C13: `Bridge.WireAskWithout`). -/
+theorem C07_K3b_startup_from_C10 (tr : Trace) (b : Br) (s : Link.Svc) (types : List String) (n : String) (hn : n ∈ types)
+    (tS : Int) (pre0 : List (Int × Sched.Op)) (tb : Int) (d : Nat) (evs : List (Int × Sched.Op)) (s' : Sched2.S2)
+    (outs : List Sched.Send) (t : Int) (ttl : Int) (hidle : C10.IdleOps pre0) (hact : C10.Active evs)
+    (hex : Sched2.exec2 (C10.browserCfg types 10000 none) {} tS (pre0 ++ (tb, .start d) :: evs) = .ok (s', outs))
+    (hlast : tb + 120 + 14000 < Sched.lastTime tb evs) (hlate : ¬ tb + 120 + 14000 + 10000 ≤ t + 750 * ttl)
+    (hwire : ∀ o ∈ outs, n ∈ o.types → tb + 5000 ≤ o.t → Bridge.WireAskWithout tr b s o) :
     refreshOpp tr b.host b.ty s (refreshWindow Cfg.paper t ttl tb false).1 (refreshWindow Cfg.paper t ttl tb false).2 = true
     ∧ refreshOpp tr b.host b.ty s (refreshWindow Cfg.paper t ttl tb true).1 (refreshWindow Cfg.paper t ttl tb true).2 = true :=
-  Bridge.K3b_windows_main tr b s types tS pre0 tb d pre t a n ttl evsA tn opn rest s' outs hidle hnew0 hpre hnew hact hun hlate
-    httl htb hbeyond hex hwire
+  Bridge.K3b_windows_startup tr b s types n hn 10000 tS pre0 tb d evs s' outs t ttl hidle hact hex hlast hlate hwire
+
+/-- a refreshed record whose schedule is kept: the browser (started at 1 s, start-up passes at 1050 / 2050 / 6050 / 15050 ms, first
+running pass at 25 050 ms) learns `a._x._tcp.local.` at 30 s (TTL 1125 s: 75 % point 873 750 ms) and sees it refreshed at 35 s (new
+75 % point 878 750 ms, within 10 s of the schedule: kept).  The 75 % query goes out at 873 750 ms — 5 s *before* the refreshed
+record's 75 % point — and the 85 % query 112.5 s later. -/
+def C07_keptHistory : List (Int × Sched.Op) :=
+  [(1000, .start 50), (1050, .fire false), (2050, .fire false), (6050, .fire false), (15050, .fire false), (25050, .fire false),
+   (30000, .ptr "a._x._tcp.local." "_x._tcp.local." 1125 30000), (35000, .ptr "a._x._tcp.local." "_x._tcp.local." 1125 35000),
+   (35050, .fire false), (873750, .fire false), (986250, .fire false), (1098750, .fire false)]
+
+example : (Sched2.exec2 (C10.browserCfg ["_x._tcp.local."] 10000 none) {} 0 C07_keptHistory).toOption.map (fun r => r.2.map (·.t)) =
+    some [1050, 2050, 6050, 15050, 873750, 986250, 1098750] := by decide
+
+/-- … and `Bridge.refresh_two_sends_any` applies to it (non-vacuity of its hypotheses, `OneName` included): the record refreshed at
+35 s is asked for in `[35 s + 75 % − 10 s, … + 20 s]` and again 10 % of the TTL later -/
+example : ∃ s' outs, Sched2.exec2 (C10.browserCfg ["_x._tcp.local."] 10000 none) {} 0 C07_keptHistory = .ok (s', outs) ∧
+    ∃ o1 ∈ outs, (35000 : Int) + 750 * (1125 : Nat) - (10000 : Nat) ≤ o1.t ∧ o1.t ≤ 35000 + 750 * (1125 : Nat) + 2 * (10000 : Nat) ∧
+      "_x._tcp.local." ∈ o1.types ∧
+      ∃ o2 ∈ outs, o1.t + 100 * (1125 : Nat) ≤ o2.t ∧ o2.t ≤ o1.t + 100 * (1125 : Nat) + (10000 : Nat) ∧ "_x._tcp.local." ∈ o2.types := by
+  have hok : (Sched2.exec2 (C10.browserCfg ["_x._tcp.local."] 10000 none) {} 0 C07_keptHistory).toBool = true := by decide
+  cases hx : Sched2.exec2 (C10.browserCfg ["_x._tcp.local."] 10000 none) {} 0 C07_keptHistory with
+  | error e => rw [hx] at hok; cases hok
+  | ok r =>
+    obtain ⟨s', outs⟩ := r
+    refine ⟨s', outs, rfl, ?_⟩
+    refine Bridge.refresh_two_sends_any ["_x._tcp.local."] 10000 0 [] 1000 50
+      [(1050, .fire false), (2050, .fire false), (6050, .fire false), (15050, .fire false), (25050, .fire false),
+       (30000, .ptr "a._x._tcp.local." "_x._tcp.local." 1125 30000)] 35000 "a._x._tcp.local." "_x._tcp.local." 1125 35000
+      [(35050, .fire false), (873750, .fire false), (986250, .fire false)] 1098750 (.fire false) [] s' outs
+      (by intro e he; cases he) (by unfold C10.Active; decide) (by unfold C10.Active; decide) (by unfold C10.Untouched; decide) ?_
+      (by decide) (by decide) (by decide) (by decide) hx
+    intro e he a' n' ttl cr hop _
+    simp only [List.nil_append, List.mem_cons, List.not_mem_nil, or_false] at he
+    rcases he with rfl | rfl | rfl | rfl | rfl | rfl <;> cases hop
+    rfl
 
 /-- **K5 from the C04 / C05 / C06 models.**  `C04_live_eq_cache` (for every history — datagrams and purges before the browser
 exists, its creation with purge and replay, any datagrams and purges after — "reported Added and not since Removed" = "the cache
